@@ -15,3 +15,11 @@ reg("C20", "fault_enumeration",
     "With the H1 pause hook the link is stopped at every phase boundary after its inputs were opened; at that instant one input of each kind (object, archive, thin-archive index and member, linker script, INPUT() object) is modified in each way (rewrite, append, rename-replace, touch) and the link resumed; the exit status must be non-zero. Thorough enumerates boundary x kind x modification completely for one link, under three thread/fork settings.",
     "Instants after the start of wild's final check are reported, not judged; mtime-preserving modifications are not in the property's list.",
     "runtime pause-point injection (hook) + exit-status monitor")
+reg("C39", "exploration",
+    "Each real multi-group link is run under a seeded schedule perturbation (yields/sleeps at task starts and in the two hand-off windows) with the slot-protocol event log on; the log (push/take/park logged under the slot lock) is replayed against a sequential model: every pushed item handled exactly once by its group, never before its push, no overlapping handling of one group, lost-wake-up patterns, all groups parked with empty slots at the end; output bytes equal the single-thread link; hangs are decided from quiescence plus an unhandled item. Evidence reports events, distinct interleaving fingerprints and how often a push hit a parked / running / not-yet-started worker. Thorough adds a ThreadSanitizer build.",
+    "Trusts that the hook events are emitted where the code comments say (under the slot lock); liveness is restated as termination of every observed execution; interleavings are sampled, not enumerated.",
+    "runtime trace monitor: hooked event log checked offline against a sequential slot model, under seeded schedule perturbation; TSan in thorough")
+reg("C40", "exploration",
+    "Each real string-merge (G up to thousands of input groups x 16 buckets, forced by --wild-experiments) is run under seeded perturbation (including the load-to-CAS window of the reservation and the slot-swap/bucket-park windows) with the slot/reservation event log on; the log is replayed against a sequential model of the slot matrix: per bucket the groups are taken 0..G-1 once each and in order, legal slot transitions, every group processed once, every bucket finished, reservations conserved; merged bytes equal the single-thread result and do not depend on the partitioning parameters. Thorough adds a ThreadSanitizer build.",
+    "Reservation events are not atomic with the counter, so only conservation and per-event sanity are checked for the pool; liveness is restated as termination of every observed merge.",
+    "runtime trace monitor: hooked event log checked offline against a sequential model, under seeded schedule perturbation; TSan in thorough")
